@@ -3377,6 +3377,14 @@ psf_open_file (SF_PRIVATE *psf, SF_INFO *sfinfo)
 error_exit :
 	sf_errno = error ;
 
+	/*
+	** The open has failed, so whatever is in an existing file stays as it is : the
+	** close hooks of the containers rewrite the header (from an SF_INFO that may
+	** just have failed validation) for anything that is not open read-only.
+	*/
+	if (psf->file.mode == SFM_RDWR)
+		psf->file.mode = SFM_READ ;
+
 	if (error == SFE_SYSTEM)
 		snprintf (sf_syserr, sizeof (sf_syserr), "%s", psf->syserr) ;
 	snprintf (sf_parselog, sizeof (sf_parselog), "%s", psf->parselog.buf) ;
